@@ -403,12 +403,9 @@ fn execute_history(run: &Run, opts: &ExecOpts) -> Outcome {
                     }
                     let reach: BTreeSet<String> = fresh[0].resolved_to.iter().cloned().collect();
                     check_c04(&mut cx, &fresh[0].first, Some((&fs_now, &reach)), "fresh", i);
-                    if fresh[0].first.panic.is_none() {
-                        // the session is synced: its cached texts are the current ones
-                        check_c04(&mut cx, &ts, Some((&fs_now, &reach)), "session", i);
-                    } else {
-                        check_c04(&mut cx, &ts, None, "session", i);
-                    }
+                    // locations are checked on the fresh build only: where the session agrees with it
+                    // that covers the session too, and where it does not that is I-C14's business
+                    check_c04(&mut cx, &ts, None, "session", i);
                     note_fs_built(&mut cx, &fs_now, &fresh[0].first);
                     if fresh.iter().any(|f| f.first != fresh[0].first) {
                         cx.out.stats.checkpoints_handed_to_c10 += 1;
@@ -461,7 +458,7 @@ fn execute_history(run: &Run, opts: &ExecOpts) -> Outcome {
                                 let what = if ts.code != fr.code { "code" } else if ts.emitted != fr.emitted { "emitted-diagnostics" } else if ts.diag != fr.diag { "diagnostics-api" } else { "panic" };
                                 cx.violate(
                                     "C14",
-                                    format!("divergence:session={},fresh={},differs-in={}", ts.shape(), fr.shape(), what),
+                                    format!("divergence:session={},fresh={},differs-in={},stale-resolution-candidates={}", ts.shape(), fr.shape(), what, if stale0.is_empty() { "no" } else { "yes" }),
                                     json!({"session": ts.digest(), "fresh": fr.digest(), "stale_resolution_candidates": stale0}),
                                     i,
                                 );
@@ -612,7 +609,17 @@ fn execute_c10(run: &Run, opts: &ExecOpts) -> Outcome {
             }
         }
     }
-    if let Some(j) = results.iter().position(|r| r.first != results[0].first) {
+    // a panic anywhere is I-C04's business (reported above for variant 0, below for the others);
+    // which entry point it surfaces at depends on the variant, so nothing is compared then
+    let any_panic = results.iter().any(|r| r.first.panic.is_some());
+    for (i, r) in results.iter().enumerate().skip(1) {
+        if let Some(p) = &r.first.panic {
+            cx.violate("C04", panic_class(p), json!({"who": "fresh", "panic": p, "variant": run.variants[i]}), i);
+        }
+    }
+    if any_panic {
+        cx.out.stats.probe("c10_comparison_skipped_panic");
+    } else if let Some(j) = results.iter().position(|r| r.first != results[0].first) {
         // find the closest pair to name the separating dimension
         let mut dim = "mixed";
         let mut pair = (0, j);
